@@ -27,6 +27,7 @@
  */
 
 #include "StringDictionaryXBW.h"
+#include <sstream>
 #include "iterators/IteratorDictStringXBW.h"
 #include "iterators/IteratorDictStringXBWDuplicates.h"
 
@@ -128,6 +129,18 @@ StringDictionaryXBW::StringDictionaryXBW(IteratorDictString *it) {
   for (uint i = 0; i < len; i++)
     delete nodes[i];
   delete[] occ;
+
+  // Build the queryable index from the arrays just computed, exactly as load()
+  // does from a saved image (without it the dictionary could only be saved)
+  {
+    std::stringstream image(std::ios::in | std::ios::out | std::ios::binary);
+    image.write((char *)&len, sizeof(uint));
+    image.write((char *)mapping, 257 * sizeof(uint));
+    image.write((char *)alpha, len * sizeof(uint));
+    image.write((char *)last, (len / W + 1) * sizeof(uint));
+    image.write((char *)A, (len / W + 2) * sizeof(uint));
+    xbw = new XBW(image);
+  }
 }
 
 unsigned long StringDictionaryXBW::locate(uchar *str, uint strLen) {
